@@ -17,7 +17,7 @@ def sh(c, check=False):
 
 
 assert sh("git -C /repo status --porcelain --untracked-files=no").stdout.strip() == "", "/repo dirty"
-assert sh("git -C /verif status --porcelain --untracked-files=no").stdout.strip() == "", "/verif dirty (commit first)"
+assert [l for l in sh("git -C /verif status --porcelain --untracked-files=no").stdout.splitlines() if "mutants/results" not in l] == [], "/verif dirty (commit first)"
 for name in sys.argv[1:]:
     b = "box-" + name
     mapping = {}
